@@ -547,8 +547,9 @@ fn replay(inp: &str, outp: &str) {
         let mut run = match Run::new(&uni, &cfg) {
             Ok(r) => r,
             Err(e) => {
-                eprintln!("{e}");
-                std::process::exit(2)
+                // the code under test refused the configuration: an observation, not a tool error
+                w.write(&json!({"run": n, "steps": [], "end": format!("rejected:{e}")}));
+                continue;
             }
         };
         let mut steps = vec![json!({"a": {"a": "init"}, "o": {}, "s": run.state()})];
@@ -580,10 +581,13 @@ fn record(metap: &str, outp: &str) {
     let mut rng = Rng::new(vh_core::seed_from_env() ^ meta["salt"].as_u64().unwrap_or(0));
     let mut w = NdjsonWriter::create(outp);
     for n in 0..runs {
-        let mut run = Run::new(&uni, &cfg).unwrap_or_else(|e| {
-            eprintln!("{e}");
-            std::process::exit(2)
-        });
+        let mut run = match Run::new(&uni, &cfg) {
+            Ok(r) => r,
+            Err(e) => {
+                w.write(&json!({"run": n, "steps": [], "end": format!("rejected:{e}")}));
+                continue;
+            }
+        };
         let mut steps = vec![json!({"a": {"a": "init"}, "o": {}, "s": run.state()})];
         let mut end = "complete".to_string();
         // per-run flavour: how hostile the lookup service is, how chatty the issue source
